@@ -1,11 +1,13 @@
 (** C19 — the direct accesses to the caller's pixel buffer, frozen.
 
-    Copy of the lists that tools/gosrc2v/imguse.go extracts from the import functions (element
-    reads of Pix with their index expressions, the slice read of the clean-up copy, and every
+    Copy of the SETS that tools/gosrc2v/imguse.go extracts from the functions that read pixels
+    (index expressions of the element reads of Pix, the slice read of the clean-up copy, and every
     assignment / increment of a variable occurring, transitively, in those index expressions).
-    These are the expressions PlaceModel.v transcribes; the obligation [pix_sites_match_model]
-    breaks when any of them changes, when a read is added or removed, and when a store through
-    the caller's Pix appears ([U.pix_stores] must be empty). *)
+    These are the expressions PlaceModel.v transcribes.  They are sets of source expressions,
+    whichever function holds them and however often: moving a loop into a helper or merging two
+    copies leaves them unchanged; a changed offset formula, a new read or a removed one changes
+    them and breaks [pix_sites_match_model]; a store through the caller's Pix makes
+    [U.pix_stores] non-empty. *)
 From Coq Require Import ZArith List Bool String.
 From WebpGen Require ImgUse.
 Import ListNotations.
@@ -13,263 +15,103 @@ Open Scope Z_scope.
 
 Module U := WebpGen.ImgUse.
 
-Definition doc_pix_reads : list (Z * string) :=
-  [ (8, "off + 3"%string);
-    (8, "off"%string);
-    (8, "off + 1"%string);
-    (8, "off + 2"%string);
-    (8, "off + 3"%string);
-    (8, "off"%string);
-    (8, "off + 1"%string);
-    (8, "off + 2"%string);
-    (9, "off + 3"%string);
-    (9, "off"%string);
-    (9, "off + 1"%string);
-    (9, "off + 2"%string);
-    (9, "off + 3"%string);
-    (9, "off"%string);
-    (9, "off + 1"%string);
-    (9, "off + 2"%string);
-    (11, "soff + 3"%string);
-    (11, "soff"%string);
-    (11, "soff + 1"%string);
-    (11, "soff + 2"%string);
-    (11, "soff"%string);
-    (11, "soff + 1"%string);
-    (11, "soff + 2"%string);
-    (10, "off"%string);
-    (10, "off"%string);
-    (12, "srcOff"%string);
-    (12, "srcOff + 1"%string);
-    (12, "srcOff + 2"%string);
-    (12, "srcOff"%string);
-    (12, "srcOff + 1"%string);
-    (12, "srcOff + 2"%string);
-    (13, "rowOff"%string);
-    (13, "rowOff"%string);
-    (14, "off"%string);
-    (14, "off + 1"%string);
-    (14, "off + 2"%string);
-    (14, "off + 3"%string);
-    (14, "off"%string);
-    (14, "off + 1"%string);
-    (14, "off + 2"%string);
-    (14, "off"%string);
-    (14, "off + 1"%string);
-    (14, "off + 2"%string);
-    (14, "off"%string);
-    (14, "off + 1"%string);
-    (14, "off + 2"%string);
-    (14, "off + 3"%string);
-    (15, "rowOff + 3"%string);
-    (15, "rowOff + 7"%string);
-    (15, "rowOff + 11"%string);
-    (15, "rowOff + 15"%string);
-    (15, "rowOff + 3"%string);
-    (15, "rowOff + 3"%string);
-    (15, "rowOff + 7"%string);
-    (15, "rowOff + 11"%string);
-    (15, "rowOff + 15"%string);
-    (15, "rowOff + 3"%string) ].
+Definition doc_pix_read_exprs : list string :=
+  [ "off"%string;
+    "off + 1"%string;
+    "off + 2"%string;
+    "off + 3"%string;
+    "rowOff"%string;
+    "rowOff + 11"%string;
+    "rowOff + 15"%string;
+    "rowOff + 3"%string;
+    "rowOff + 7"%string;
+    "soff"%string;
+    "soff + 1"%string;
+    "soff + 2"%string;
+    "soff + 3"%string;
+    "srcOff"%string;
+    "srcOff + 1"%string;
+    "srcOff + 2"%string ].
 
-Definition doc_pix_slice_reads : list (Z * string) :=
-  [ (11, "srcOff : srcOff + width*4"%string) ].
+Definition doc_pix_slice_read_exprs : list string :=
+  [ "srcOff : srcOff + width*4"%string ].
 
-Definition doc_pix_offset_defs : list (Z * string) :=
-  [ (8, "bounds := img.Bounds()"%string);
-    (8, "nrgba, ok := img.(*image.NRGBA)"%string);
-    (8, "y := 0"%string);
-    (8, "y++"%string);
-    (8, "rowOff := (y+bounds.Min.Y-nrgba.Rect.Min.Y)*nrgba.Stride + (bounds.Min.X-nrgba.Rect.Min.X)*4"%string);
-    (8, "x := 0"%string);
-    (8, "x++"%string);
-    (8, "off := rowOff + x*4"%string);
-    (8, "rgba, ok := img.(*image.RGBA)"%string);
-    (8, "y := 0"%string);
-    (8, "y++"%string);
-    (8, "rowOff := (y+bounds.Min.Y-rgba.Rect.Min.Y)*rgba.Stride + (bounds.Min.X-rgba.Rect.Min.X)*4"%string);
-    (8, "x := 0"%string);
-    (8, "x++"%string);
-    (8, "off := rowOff + x*4"%string);
-    (8, "y := 0"%string);
-    (8, "y++"%string);
-    (8, "x := 0"%string);
-    (8, "x++"%string);
-    (9, "bounds := img.Bounds()"%string);
-    (9, "nrgba, ok := img.(*image.NRGBA)"%string);
-    (9, "y := 0"%string);
-    (9, "y++"%string);
-    (9, "rowOff := (y+bounds.Min.Y-nrgba.Rect.Min.Y)*nrgba.Stride + (bounds.Min.X-nrgba.Rect.Min.X)*4"%string);
-    (9, "x := 0"%string);
-    (9, "x++"%string);
-    (9, "off := rowOff + x*4"%string);
-    (9, "rgba, ok := img.(*image.RGBA)"%string);
-    (9, "y := 0"%string);
-    (9, "y++"%string);
-    (9, "rowOff := (y+bounds.Min.Y-rgba.Rect.Min.Y)*rgba.Stride + (bounds.Min.X-rgba.Rect.Min.X)*4"%string);
-    (9, "x := 0"%string);
-    (9, "x++"%string);
-    (9, "off := rowOff + x*4"%string);
-    (9, "y := 0"%string);
-    (9, "y++"%string);
-    (9, "x := 0"%string);
-    (9, "x++"%string);
-    (11, "bounds := img.Bounds()"%string);
-    (11, "width, height := bounds.Dx(), bounds.Dy()"%string);
-    (11, "src, ok := img.(*image.NRGBA)"%string);
-    (11, "y := 0"%string);
-    (11, "y++"%string);
-    (11, "srcOff := (y+bounds.Min.Y-src.Rect.Min.Y)*src.Stride + (bounds.Min.X-src.Rect.Min.X)*4"%string);
-    (11, "src, ok := img.(*image.RGBA)"%string);
-    (11, "y := 0"%string);
-    (11, "y++"%string);
-    (11, "srcOff := (y+bounds.Min.Y-src.Rect.Min.Y)*src.Stride + (bounds.Min.X-src.Rect.Min.X)*4"%string);
-    (11, "x := 0"%string);
-    (11, "x++"%string);
-    (11, "soff := srcOff + x*4"%string);
-    (11, "y := 0"%string);
-    (11, "y++"%string);
-    (11, "x := 0"%string);
-    (11, "x++"%string);
-    (10, "b := img.Bounds()"%string);
-    (10, "nrgba, ok := img.(*image.NRGBA)"%string);
-    (10, "y := b.Min.Y"%string);
-    (10, "y++"%string);
-    (10, "off := (y-b.Min.Y)*nrgba.Stride + 3"%string);
-    (10, "off += 4"%string);
-    (10, "rgba, ok := img.(*image.RGBA)"%string);
-    (10, "y := b.Min.Y"%string);
-    (10, "y++"%string);
-    (10, "off := (y-b.Min.Y)*rgba.Stride + 3"%string);
-    (10, "off += 4"%string);
-    (10, "y := b.Min.Y"%string);
-    (10, "y++"%string);
-    (12, "bounds := img.Bounds()"%string);
-    (12, "nrgba, ok := img.(*image.NRGBA)"%string);
-    (12, "y := 0"%string);
-    (12, "y++"%string);
-    (12, "srcOff := (y+bounds.Min.Y-nrgba.Rect.Min.Y)*nrgba.Stride + (bounds.Min.X-nrgba.Rect.Min.X)*4"%string);
-    (12, "srcOff += 4"%string);
-    (12, "rgba, ok := img.(*image.RGBA)"%string);
-    (12, "y := 0"%string);
-    (12, "y++"%string);
-    (12, "srcOff := (y+bounds.Min.Y-rgba.Rect.Min.Y)*rgba.Stride + (bounds.Min.X-rgba.Rect.Min.X)*4"%string);
-    (12, "srcOff += 4"%string);
-    (12, "y := 0"%string);
-    (12, "y++"%string);
-    (13, "b := img.Bounds()"%string);
-    (13, "nrgba, ok := img.(*image.NRGBA)"%string);
-    (13, "y := 0"%string);
-    (13, "y++"%string);
-    (13, "rowOff := (y+b.Min.Y-nrgba.Rect.Min.Y)*nrgba.Stride + (b.Min.X-nrgba.Rect.Min.X)*4 + 3"%string);
-    (13, "rowOff += 4"%string);
-    (13, "rgba, ok := img.(*image.RGBA)"%string);
-    (13, "y := 0"%string);
-    (13, "y++"%string);
-    (13, "rowOff := (y+b.Min.Y-rgba.Rect.Min.Y)*rgba.Stride + (b.Min.X-rgba.Rect.Min.X)*4 + 3"%string);
-    (13, "rowOff += 4"%string);
-    (13, "y := 0"%string);
-    (13, "y++"%string);
-    (14, "bounds := img.Bounds()"%string);
-    (14, "w := bounds.Dx()"%string);
-    (14, "h := bounds.Dy()"%string);
-    (14, "padH := enc.mbH * 16"%string);
-    (14, "nrgba, isNRGBA := img.(*image.NRGBA)"%string);
-    (14, "rgba, isRGBA := img.(*image.RGBA)"%string);
-    (14, "pixStride = nrgba.Stride"%string);
-    (14, "pixRect = nrgba.Rect"%string);
-    (14, "pixStride = rgba.Stride"%string);
-    (14, "pixRect = rgba.Rect"%string);
-    (14, "sy := srcY + bounds.Min.Y"%string);
-    (14, "sy = bounds.Min.Y + h - 1"%string);
-    (14, "rowOff := (sy-pixRect.Min.Y)*pixStride + (bounds.Min.X-pixRect.Min.X)*4"%string);
-    (14, "x := 0"%string);
-    (14, "x++"%string);
-    (14, "sx := x"%string);
-    (14, "sx = w - 1"%string);
-    (14, "off := rowOff + sx*4"%string);
-    (14, "x := 0"%string);
-    (14, "x++"%string);
-    (14, "sx := x + bounds.Min.X"%string);
-    (14, "sx = bounds.Min.X + w - 1"%string);
-    (14, "nWorkers := runtime.GOMAXPROCS(0)"%string);
-    (14, "nWorkers = verifhook.Workers(verifhook.SiteLossyImportY, nWorkers)"%string);
-    (14, "nWorkers = padH"%string);
-    (14, "wi := 0"%string);
-    (14, "wi++"%string);
-    (14, "startY := wi * padH / nWorkers"%string);
-    (14, "srcBase := (bounds.Min.Y-pixRect.Min.Y)*pixStride + (bounds.Min.X-pixRect.Min.X)*4"%string);
-    (14, "y := startY"%string);
-    (14, "y++"%string);
-    (14, "sy := y"%string);
-    (14, "sy = h - 1"%string);
-    (14, "rowOff := srcBase + sy*pixStride"%string);
-    (14, "x := 0"%string);
-    (14, "x++"%string);
-    (14, "off := rowOff + x*4"%string);
-    (14, "x := w"%string);
-    (14, "x++"%string);
-    (14, "y := 0"%string);
-    (14, "y++"%string);
-    (14, "sy := y + bounds.Min.Y"%string);
-    (14, "sy = bounds.Min.Y + h - 1"%string);
-    (14, "rowOff := (sy-pixRect.Min.Y)*pixStride + (bounds.Min.X-pixRect.Min.X)*4"%string);
-    (14, "x := 0"%string);
-    (14, "x++"%string);
-    (14, "sx := x"%string);
-    (14, "sx = w - 1"%string);
-    (14, "off := rowOff + sx*4"%string);
-    (14, "y := 0"%string);
-    (14, "y++"%string);
-    (14, "sy := y + bounds.Min.Y"%string);
-    (14, "sy = bounds.Min.Y + h - 1"%string);
-    (14, "x := 0"%string);
-    (14, "x++"%string);
-    (14, "sx := x + bounds.Min.X"%string);
-    (14, "sx = bounds.Min.X + w - 1"%string);
-    (14, "halfPadH := padH / 2"%string);
-    (14, "nUVWorkers := runtime.GOMAXPROCS(0)"%string);
-    (14, "nUVWorkers = verifhook.Workers(verifhook.SiteLossyImportUV, nUVWorkers)"%string);
-    (14, "nUVWorkers = halfPadH"%string);
-    (14, "wi := 0"%string);
-    (14, "wi++"%string);
-    (14, "startPair := wi * halfPadH / nUVWorkers"%string);
-    (14, "srcBase := (bounds.Min.Y-pixRect.Min.Y)*pixStride + (bounds.Min.X-pixRect.Min.X)*4"%string);
-    (14, "y := startPair"%string);
-    (14, "y++"%string);
-    (14, "row := 0"%string);
-    (14, "row++"%string);
-    (14, "srcY := y*2 + row"%string);
-    (14, "sy := srcY"%string);
-    (14, "sy = h - 1"%string);
-    (14, "rowOff := srcBase + sy*pixStride"%string);
-    (14, "x := 0"%string);
-    (14, "x++"%string);
-    (14, "off := rowOff + x*4"%string);
-    (14, "x := w"%string);
-    (14, "x++"%string);
-    (14, "y := 0"%string);
-    (14, "y++"%string);
-    (15, "nrgba, ok := img.(*image.NRGBA)"%string);
-    (15, "bounds := nrgba.Bounds()"%string);
-    (15, "y := bounds.Min.Y"%string);
-    (15, "y++"%string);
-    (15, "rowOff := (y-nrgba.Rect.Min.Y)*nrgba.Stride + (bounds.Min.X-nrgba.Rect.Min.X)*4"%string);
-    (15, "rowOff += 16"%string);
-    (15, "rowOff += 4"%string);
-    (15, "rgba, ok := img.(*image.RGBA)"%string);
-    (15, "bounds := rgba.Bounds()"%string);
-    (15, "y := bounds.Min.Y"%string);
-    (15, "y++"%string);
-    (15, "rowOff := (y-rgba.Rect.Min.Y)*rgba.Stride + (bounds.Min.X-rgba.Rect.Min.X)*4"%string);
-    (15, "rowOff += 16"%string);
-    (15, "rowOff += 4"%string);
-    (15, "bounds := img.Bounds()"%string);
-    (15, "y := bounds.Min.Y"%string);
-    (15, "y++"%string) ].
+Definition doc_pix_offset_defs : list string :=
+  [ "b := img.Bounds()"%string;
+    "bounds := img.Bounds()"%string;
+    "bounds := nrgba.Bounds()"%string;
+    "bounds := rgba.Bounds()"%string;
+    "h := bounds.Dy()"%string;
+    "halfPadH := padH / 2"%string;
+    "nUVWorkers := runtime.GOMAXPROCS(0)"%string;
+    "nUVWorkers = halfPadH"%string;
+    "nUVWorkers = verifhook.Workers(verifhook.SiteLossyImportUV, nUVWorkers)"%string;
+    "nWorkers := runtime.GOMAXPROCS(0)"%string;
+    "nWorkers = padH"%string;
+    "nWorkers = verifhook.Workers(verifhook.SiteLossyImportY, nWorkers)"%string;
+    "nrgba, isNRGBA := img.(*image.NRGBA)"%string;
+    "nrgba, ok := img.(*image.NRGBA)"%string;
+    "off += 4"%string;
+    "off := (y-b.Min.Y)*nrgba.Stride + 3"%string;
+    "off := (y-b.Min.Y)*rgba.Stride + 3"%string;
+    "off := rowOff + sx*4"%string;
+    "off := rowOff + x*4"%string;
+    "padH := enc.mbH * 16"%string;
+    "pixRect = nrgba.Rect"%string;
+    "pixRect = rgba.Rect"%string;
+    "pixStride = nrgba.Stride"%string;
+    "pixStride = rgba.Stride"%string;
+    "rgba, isRGBA := img.(*image.RGBA)"%string;
+    "rgba, ok := img.(*image.RGBA)"%string;
+    "row := 0"%string;
+    "row++"%string;
+    "rowOff += 16"%string;
+    "rowOff += 4"%string;
+    "rowOff := (sy-pixRect.Min.Y)*pixStride + (bounds.Min.X-pixRect.Min.X)*4"%string;
+    "rowOff := (y+b.Min.Y-nrgba.Rect.Min.Y)*nrgba.Stride + (b.Min.X-nrgba.Rect.Min.X)*4 + 3"%string;
+    "rowOff := (y+b.Min.Y-rgba.Rect.Min.Y)*rgba.Stride + (b.Min.X-rgba.Rect.Min.X)*4 + 3"%string;
+    "rowOff := (y+bounds.Min.Y-nrgba.Rect.Min.Y)*nrgba.Stride + (bounds.Min.X-nrgba.Rect.Min.X)*4"%string;
+    "rowOff := (y+bounds.Min.Y-rgba.Rect.Min.Y)*rgba.Stride + (bounds.Min.X-rgba.Rect.Min.X)*4"%string;
+    "rowOff := (y-nrgba.Rect.Min.Y)*nrgba.Stride + (bounds.Min.X-nrgba.Rect.Min.X)*4"%string;
+    "rowOff := (y-rgba.Rect.Min.Y)*rgba.Stride + (bounds.Min.X-rgba.Rect.Min.X)*4"%string;
+    "rowOff := srcBase + sy*pixStride"%string;
+    "soff := srcOff + x*4"%string;
+    "src, ok := img.(*image.NRGBA)"%string;
+    "src, ok := img.(*image.RGBA)"%string;
+    "srcBase := (bounds.Min.Y-pixRect.Min.Y)*pixStride + (bounds.Min.X-pixRect.Min.X)*4"%string;
+    "srcOff += 4"%string;
+    "srcOff := (y+bounds.Min.Y-nrgba.Rect.Min.Y)*nrgba.Stride + (bounds.Min.X-nrgba.Rect.Min.X)*4"%string;
+    "srcOff := (y+bounds.Min.Y-rgba.Rect.Min.Y)*rgba.Stride + (bounds.Min.X-rgba.Rect.Min.X)*4"%string;
+    "srcOff := (y+bounds.Min.Y-src.Rect.Min.Y)*src.Stride + (bounds.Min.X-src.Rect.Min.X)*4"%string;
+    "srcY := y*2 + row"%string;
+    "startPair := wi * halfPadH / nUVWorkers"%string;
+    "startY := wi * padH / nWorkers"%string;
+    "sx := x"%string;
+    "sx := x + bounds.Min.X"%string;
+    "sx = bounds.Min.X + w - 1"%string;
+    "sx = w - 1"%string;
+    "sy := srcY"%string;
+    "sy := srcY + bounds.Min.Y"%string;
+    "sy := y"%string;
+    "sy := y + bounds.Min.Y"%string;
+    "sy = bounds.Min.Y + h - 1"%string;
+    "sy = h - 1"%string;
+    "w := bounds.Dx()"%string;
+    "wi := 0"%string;
+    "wi++"%string;
+    "width, height := bounds.Dx(), bounds.Dy()"%string;
+    "x := 0"%string;
+    "x := w"%string;
+    "x++"%string;
+    "y := 0"%string;
+    "y := b.Min.Y"%string;
+    "y := bounds.Min.Y"%string;
+    "y := startPair"%string;
+    "y := startY"%string;
+    "y++"%string ].
 
 Definition pix_sites_match_model : Prop :=
-  U.pix_reads = doc_pix_reads /\ U.pix_slice_reads = doc_pix_slice_reads /\
+  U.pix_read_exprs = doc_pix_read_exprs /\ U.pix_slice_read_exprs = doc_pix_slice_read_exprs /\
   U.pix_offset_defs = doc_pix_offset_defs /\ U.pix_stores = [].
 
 Lemma pix_sites_match_model_holds : pix_sites_match_model.
